@@ -93,6 +93,349 @@ Section Machine.
   Lemma accepted_outcome_auth st t ok a :
     snd (step st (t, ok)) = Some a -> auth st t = Some a /\ nonce_of t = st a.
   Proof. intros H. apply step_accept in H. tauto. Qed.
+
+  (** ** one transaction carrying several signed messages *)
+  Notation step_tx := (step_tx A_dec auth nonce_of).
+  Notation outcomes_tx := (outcomes_tx A_dec auth nonce_of).
+  Notation final_tx := (final_tx A_dec auth nonce_of).
+  Notation executed_at := (executed_at A_dec auth nonce_of).
+  Notation auth_all := (auth_all auth).
+  Notation bump_all := (bump_all A_dec).
+  Notation occ := (count_occ A_dec).
+
+  Lemma nth_error_combine {X Y} (l : list X) : forall (l' : list Y) k x y,
+    nth_error (combine l l') k = Some (x, y) <-> nth_error l k = Some x /\ nth_error l' k = Some y.
+  Proof.
+    induction l as [|a l IH]; intros [|b l'] [|k] x y; cbn [combine nth_error];
+      try (split; [discriminate|intros [H1 H2]; discriminate]).
+    - split; [intros H; inversion H; auto|intros [H1 H2]; inversion H1; inversion H2; reflexivity].
+    - apply IH.
+  Qed.
+
+  (** the signature pass: the result lists, message by message, who each message
+      is authenticated as *)
+  Lemma auth_all_nth st ms : forall l, auth_all st ms = Some l ->
+    length l = length ms /\
+    forall k m, nth_error ms k = Some m -> exists a, nth_error l k = Some a /\ auth st m = Some a.
+  Proof.
+    induction ms as [|m r IH]; intros l H; cbn [SigModel.auth_all] in H.
+    - inversion H; subst. split; [reflexivity|]. intros [|k] m' E; discriminate.
+    - destruct (auth st m) as [a|] eqn:Ea; [|discriminate].
+      destruct (auth_all st r) as [l'|] eqn:El; [|discriminate]. inversion H; subst l.
+      destruct (IH l' eq_refl) as [Hlen Hn]. split; [cbn [length]; f_equal; exact Hlen|].
+      intros [|k] m' E; cbn [nth_error] in E |- *.
+      + inversion E; subst. eauto.
+      + apply Hn. exact E.
+  Qed.
+
+  Lemma auth_all_none st ms m : In m ms -> auth st m = None -> auth_all st ms = None.
+  Proof.
+    induction ms as [|m0 r IH]; intros Hin Hn; [destruct Hin|]. cbn [SigModel.auth_all].
+    destruct Hin as [->|Hin]; [rewrite Hn; reflexivity|].
+    destruct (auth st m0); [|reflexivity]. rewrite (IH Hin Hn). reflexivity.
+  Qed.
+
+  Lemma auth_all_some st ms : (forall m, In m ms -> auth st m <> None) -> exists l, auth_all st ms = Some l.
+  Proof.
+    induction ms as [|m0 r IH]; intros H; cbn [SigModel.auth_all]; [eauto|].
+    destruct (auth st m0) as [a|] eqn:E; [|exfalso; exact (H m0 (or_introl eq_refl) E)].
+    destruct IH as [l ->]; [intros m Hm; apply H; right; exact Hm|]. eauto.
+  Qed.
+
+  (** the sequence pass, exactly: it succeeds iff every message carries the
+      sender's sequence at the start of the transaction plus the number of
+      EARLIER messages of the same sender in this transaction; then every
+      sender's sequence has grown by the number of its messages *)
+  Lemma bump_all_exact l : forall st st', bump_all st l = Some st' ->
+    (forall b, st' b = (st b + N.of_nat (occ (map fst l) b))%N) /\
+    (forall k a n, nth_error l k = Some (a, n) -> n = (st a + N.of_nat (occ (firstn k (map fst l)) a))%N).
+  Proof.
+    induction l as [|[a0 n0] r IH]; intros st st' H; cbn [SigModel.bump_all] in H.
+    - inversion H; subst. split; [intros b; cbn; lia|]. intros [|k] a n E; discriminate.
+    - destruct (N.eqb_spec n0 (st a0)) as [E0|E0]; [|discriminate]. subst n0.
+      destruct (IH _ _ H) as [Hf Hk]. split.
+      + intros b. rewrite Hf. cbn [map fst count_occ]. unfold upd. destruct (A_dec a0 b) as [->|]; lia.
+      + intros [|k] a n E; cbn [nth_error] in E.
+        * inversion E; subst. cbn. lia.
+        * rewrite (Hk k a n E). cbn [map fst firstn count_occ]. unfold upd. destruct (A_dec a0 a) as [->|]; lia.
+  Qed.
+
+  Lemma bump_all_complete l : forall st,
+    (forall k a n, nth_error l k = Some (a, n) -> n = (st a + N.of_nat (occ (firstn k (map fst l)) a))%N) ->
+    exists st', bump_all st l = Some st'.
+  Proof.
+    induction l as [|[a0 n0] r IH]; intros st H; cbn [SigModel.bump_all]; [eauto|].
+    pose proof (H 0%nat a0 n0 eq_refl) as H0. cbn in H0. rewrite N.add_0_r in H0. subst n0. rewrite N.eqb_refl.
+    apply IH. intros k a n E. rewrite (H (S k) a n E). cbn [map fst firstn count_occ]. unfold upd.
+    destruct (A_dec a0 a) as [->|]; lia.
+  Qed.
+
+  (** consequences: sequences only grow; the nonce of every message lies in
+      [sequence before, sequence after); no two messages of one transaction
+      share (account, nonce) *)
+  Lemma bump_all_spec l st st' : bump_all st l = Some st' ->
+    (forall b, (st b <= st' b)%N) /\
+    (forall k a n, nth_error l k = Some (a, n) -> (st a <= n < st' a)%N) /\
+    (forall k k' a n, nth_error l k = Some (a, n) -> nth_error l k' = Some (a, n) -> k = k').
+  Proof.
+    revert st st'. induction l as [|[a0 n0] r IH]; intros st st' H; cbn [SigModel.bump_all] in H.
+    - inversion H; subst. split; [intros; lia|]. split; [intros [|k] a n E; discriminate|intros [|k] k' a n E; discriminate].
+    - destruct (N.eqb_spec n0 (st a0)) as [E0|E0]; [|discriminate]. subst n0.
+      destruct (IH _ _ H) as (Hm & Hr & Hi).
+      assert (Hm0 : forall b, (st b <= st' b)%N).
+      { intros b. specialize (Hm b). unfold upd in Hm. destruct (A_dec a0 b) as [->|]; lia. }
+      assert (Ha0 : (st a0 < st' a0)%N). { specialize (Hm a0). rewrite upd_same in Hm. lia. }
+      split; [exact Hm0|]. split.
+      + intros [|k] a n E; cbn [nth_error] in E.
+        * inversion E; subst. lia.
+        * destruct (Hr k a n E) as [H1 H2]. split; [|exact H2]. unfold upd in H1. destruct (A_dec a0 a) as [->|]; lia.
+      + intros [|k] [|k'] a n E E'; cbn [nth_error] in E, E'.
+        * reflexivity.
+        * inversion E; subst. destruct (Hr k' _ _ E') as [H1 _]. rewrite upd_same in H1. lia.
+        * inversion E'; subst. destruct (Hr k _ _ E) as [H1 _]. rewrite upd_same in H1. lia.
+        * f_equal. exact (Hi k k' a n E E').
+  Qed.
+
+  (** an accepted transaction: it has messages, the other checks passed, every
+      message was authenticated, the sequence pass went through and ITS result
+      is the new state *)
+  Lemma step_tx_accept st ms ok l :
+    snd (step_tx st (ms, ok)) = Some l ->
+    ms <> [] /\ ok = true /\ auth_all st ms = Some l /\
+    bump_all st (combine l (map nonce_of ms)) = Some (fst (step_tx st (ms, ok))).
+  Proof.
+    unfold SigModel.step_tx. destruct ms as [|m r]; [discriminate|].
+    destruct (auth_all st (m :: r)) as [l'|]; [|discriminate].
+    destruct (bump_all st (combine l' (map nonce_of (m :: r)))) as [st'|] eqn:Eb; [|discriminate].
+    destruct ok; [|discriminate]. cbn [fst snd]. intros H; inversion H; subst.
+    split; [discriminate|]. split; [reflexivity|]. split; [reflexivity|exact Eb].
+  Qed.
+
+  (** all or nothing: a rejected transaction changes nothing *)
+  Lemma step_tx_reject st x : snd (step_tx st x) = None -> fst (step_tx st x) = st.
+  Proof.
+    destruct x as [ms ok]. unfold SigModel.step_tx. destruct ms as [|m r]; [reflexivity|].
+    destruct (auth_all st (m :: r)) as [l'|]; [|reflexivity].
+    destruct (bump_all st (combine l' (map nonce_of (m :: r)))) as [st'|]; [|reflexivity].
+    destruct ok; [discriminate|reflexivity].
+  Qed.
+
+  Lemma step_tx_rejected st x : snd (step_tx st x) = None -> step_tx st x = (st, None).
+  Proof. intros H. rewrite (surjective_pairing (step_tx st x)), H, (step_tx_reject _ _ H). reflexivity. Qed.
+
+  (** [step] is the one-message case *)
+  Lemma step_tx_singleton st t ok :
+    step_tx st ([t], ok) = (fst (step st (t, ok)), option_map (fun a => [a]) (snd (step st (t, ok)))).
+  Proof.
+    unfold SigModel.step_tx, SigModel.step. cbn [SigModel.auth_all]. destruct (auth st t) as [a|]; [|reflexivity].
+    cbn [map combine SigModel.bump_all]. destruct (nonce_of t =? st a)%N; [|reflexivity].
+    destruct ok; reflexivity.
+  Qed.
+
+  (** message [k] of an accepted transaction: authenticated as [a], and its
+      nonce is [a]'s sequence at that point of the transaction *)
+  Lemma step_tx_message st ms ok l k m a :
+    snd (step_tx st (ms, ok)) = Some l -> nth_error ms k = Some m -> nth_error l k = Some a ->
+    auth st m = Some a /\
+    nonce_of m = (st a + N.of_nat (occ (firstn k l) a))%N /\
+    (st a <= nonce_of m < fst (step_tx st (ms, ok)) a)%N.
+  Proof.
+    intros Hacc Hm Hl. apply step_tx_accept in Hacc as (_ & _ & Hau & Hb).
+    destruct (auth_all_nth _ _ _ Hau) as [Hlen Hn]. destruct (Hn k m Hm) as (a' & Ha' & Hauth).
+    rewrite Hl in Ha'. inversion Ha'; subst a'.
+    assert (E : nth_error (combine l (map nonce_of ms)) k = Some (a, nonce_of m)).
+    { apply nth_error_combine. split; [exact Hl|]. rewrite nth_error_map, Hm. reflexivity. }
+    destruct (bump_all_exact _ _ _ Hb) as [_ Hk]. destruct (bump_all_spec _ _ _ Hb) as (_ & Hr & _).
+    split; [exact Hauth|]. split; [|exact (Hr _ _ _ E)].
+    rewrite (Hk _ _ _ E). do 3 f_equal.
+    assert (Hfst : map fst (combine l (map nonce_of ms)) = l).
+    { clear -Hlen. revert ms Hlen. induction l as [|x l IH]; intros [|y ms] Hlen; cbn in *; try reflexivity; try discriminate.
+      f_equal. apply IH. lia. }
+    rewrite Hfst. reflexivity.
+  Qed.
+
+  (** the new state: every account's sequence has grown by the number of its
+      messages in the transaction *)
+  Lemma step_tx_state st ms ok l :
+    snd (step_tx st (ms, ok)) = Some l ->
+    forall b, fst (step_tx st (ms, ok)) b = (st b + N.of_nat (occ l b))%N.
+  Proof.
+    intros Hacc b. apply step_tx_accept in Hacc as (_ & _ & Hau & Hb).
+    destruct (auth_all_nth _ _ _ Hau) as [Hlen _]. destruct (bump_all_exact _ _ _ Hb) as [Hf _].
+    rewrite Hf. do 3 f_equal.
+    clear -Hlen. revert ms Hlen. induction l as [|x l IH]; intros [|y ms] Hlen; cbn in *; try reflexivity; try discriminate.
+    f_equal. apply IH. lia.
+  Qed.
+
+  Lemma step_tx_mono st x b : (st b <= fst (step_tx st x) b)%N.
+  Proof.
+    destruct x as [ms ok]. destruct (snd (step_tx st (ms, ok))) as [l|] eqn:E.
+    - rewrite (step_tx_state _ _ _ _ E). lia.
+    - rewrite (step_tx_reject _ _ E). lia.
+  Qed.
+
+  Lemma final_tx_mono h : forall st b, (st b <= final_tx st h b)%N.
+  Proof.
+    induction h as [|x r IH]; intros st b; cbn [SigModel.final_tx]; [lia|].
+    pose proof (step_tx_mono st x b). specialize (IH (fst (step_tx st x)) b). lia.
+  Qed.
+
+  (** ** rejection of the whole transaction *)
+
+  (** a message that is not authenticated *)
+  Theorem tx_unauthenticated_rejected st ms ok m :
+    In m ms -> auth st m = None -> step_tx st (ms, ok) = (st, None).
+  Proof.
+    intros Hin Hn. unfold SigModel.step_tx. destruct ms as [|m0 r]; [reflexivity|].
+    rewrite (auth_all_none _ _ _ Hin Hn). reflexivity.
+  Qed.
+
+  (** a message whose nonce is not its sender's sequence at that point of the
+      transaction (sequence at the start + earlier messages of that sender):
+      replayed, duplicated, out of order, from the future *)
+  Theorem tx_out_of_order_rejected st ms ok l k m a :
+    auth_all st ms = Some l -> nth_error ms k = Some m -> nth_error l k = Some a ->
+    nonce_of m <> (st a + N.of_nat (occ (firstn k l) a))%N ->
+    step_tx st (ms, ok) = (st, None).
+  Proof.
+    intros Hau Hm Hl Hne. apply step_tx_rejected.
+    destruct (snd (step_tx st (ms, ok))) as [l'|] eqn:E; [|reflexivity]. exfalso.
+    pose proof (step_tx_accept _ _ _ _ E) as (_ & _ & Hau' & _). rewrite Hau in Hau'. inversion Hau'; subst l'.
+    destruct (step_tx_message _ _ _ _ _ _ _ E Hm Hl) as (_ & Hn & _). exact (Hne Hn).
+  Qed.
+
+  (** a message with a nonce its sender has already used *)
+  Theorem tx_stale_rejected st ms ok m a :
+    In m ms -> auth st m = Some a -> (nonce_of m < st a)%N -> step_tx st (ms, ok) = (st, None).
+  Proof.
+    intros Hin Hau Hlt. apply step_tx_rejected.
+    destruct (snd (step_tx st (ms, ok))) as [l|] eqn:E; [|reflexivity]. exfalso.
+    destruct (In_nth_error _ _ Hin) as [k Hk].
+    pose proof (step_tx_accept _ _ _ _ E) as (_ & _ & Hall & _).
+    destruct (auth_all_nth _ _ _ Hall) as [_ Hn]. destruct (Hn k m Hk) as (a' & Hl & Hau').
+    rewrite Hau in Hau'. inversion Hau'; subst a'.
+    destruct (step_tx_message _ _ _ _ _ _ _ E Hk Hl) as (_ & _ & Hr). lia.
+  Qed.
+
+  (** two messages of the same sender with the same nonce (the same signed
+      transaction twice, or a replacement pair) *)
+  Theorem tx_duplicate_rejected st ms ok k k' m m' a :
+    k <> k' -> nth_error ms k = Some m -> nth_error ms k' = Some m' ->
+    auth st m = Some a -> auth st m' = Some a -> nonce_of m = nonce_of m' ->
+    step_tx st (ms, ok) = (st, None).
+  Proof.
+    intros Hne Hk Hk' Ha Ha' Hnn. apply step_tx_rejected.
+    destruct (snd (step_tx st (ms, ok))) as [l|] eqn:E; [|reflexivity]. exfalso.
+    pose proof (step_tx_accept _ _ _ _ E) as (_ & _ & Hall & Hb).
+    destruct (auth_all_nth _ _ _ Hall) as [_ Hn].
+    destruct (Hn k m Hk) as (b & Hl & Hb1). destruct (Hn k' m' Hk') as (b' & Hl' & Hb2).
+    rewrite Ha in Hb1. rewrite Ha' in Hb2. inversion Hb1; inversion Hb2; subst b b'.
+    destruct (bump_all_spec _ _ _ Hb) as (_ & _ & Hi). apply Hne.
+    apply (Hi k k' a (nonce_of m)); apply nth_error_combine; (split; [assumption|]); rewrite nth_error_map.
+    - rewrite Hk. reflexivity.
+    - rewrite Hk'. cbn [option_map]. congruence.
+  Qed.
+
+  (** the positive direction: authenticated messages whose nonces follow their
+      senders' sequences are accepted together *)
+  Theorem tx_in_order_accepted st ms l :
+    ms <> [] -> auth_all st ms = Some l ->
+    (forall k m a, nth_error ms k = Some m -> nth_error l k = Some a ->
+                   nonce_of m = (st a + N.of_nat (occ (firstn k l) a))%N) ->
+    snd (step_tx st (ms, true)) = Some l.
+  Proof.
+    intros Hne Hau Hord. unfold SigModel.step_tx. destruct ms as [|m0 r]; [contradiction|]. rewrite Hau.
+    destruct (auth_all_nth _ _ _ Hau) as [Hlen Hn].
+    assert (Hfst : map fst (combine l (map nonce_of (m0 :: r))) = l).
+    { clear -Hlen. revert Hlen. generalize (m0 :: r). revert l. induction l as [|x l IH]; intros [|y ms] Hlen; cbn in *; try reflexivity; try discriminate.
+      f_equal. apply IH. lia. }
+    destruct (bump_all_complete (combine l (map nonce_of (m0 :: r))) st) as [st' ->]; [|reflexivity].
+    intros k a n E. apply nth_error_combine in E as [El Em]. rewrite nth_error_map in Em.
+    destruct (nth_error (m0 :: r) k) as [m|] eqn:Ek; [|discriminate]. inversion Em; subst n.
+    rewrite Hfst. exact (Hord k m a Ek El).
+  Qed.
+
+  (** ** all histories of multi-message transactions *)
+
+  (** once an account's sequence has passed [n], no message with nonce [n] is
+      ever executed on its behalf again *)
+  Lemma no_exec_below h : forall st j k a n, (n < st a)%N -> ~ executed_at st h j k a n.
+  Proof.
+    induction h as [|x r IH]; intros st j k a n Hlt (ms & ok & l & m & Hh & Ho & Hm & Hl & Hn).
+    - destruct j; discriminate.
+    - destruct j as [|j]; cbn [nth_error SigModel.outcomes_tx] in *.
+      + inversion Hh; subst x. inversion Ho as [Ho'].
+        destruct (step_tx_message _ _ _ _ _ _ _ Ho' Hm Hl) as (_ & _ & Hr). lia.
+      + apply (IH (fst (step_tx st x)) j k a n).
+        * pose proof (step_tx_mono st x a). lia.
+        * exists ms, ok, l, m. auto.
+  Qed.
+
+  (** every (account, nonce) is executed at most once: not in two transactions,
+      and not twice within one transaction *)
+  Theorem tx_each_nonce_once h : forall st j k j' k' a n,
+    executed_at st h j k a n -> executed_at st h j' k' a n -> j = j' /\ k = k'.
+  Proof.
+    induction h as [|x r IH]; intros st j k j' k' a n Hj Hj'.
+    - destruct Hj as (ms & ok & l & m & Hh & _). destruct j; discriminate.
+    - assert (Tail : forall i q, executed_at st (x :: r) (S i) q a n -> executed_at (fst (step_tx st x)) r i q a n).
+      { intros i q (ms & ok & l & m & Hh & Ho & Hm & Hl & Hn). exists ms, ok, l, m. auto. }
+      assert (Head : forall q, executed_at st (x :: r) 0 q a n -> (n < fst (step_tx st x) a)%N).
+      { intros q (ms & ok & l & m & Hh & Ho & Hm & Hl & Hn). cbn in Hh, Ho. inversion Hh; subst x. inversion Ho as [Ho'].
+        destruct (step_tx_message _ _ _ _ _ _ _ Ho' Hm Hl) as (_ & _ & Hr). lia. }
+      destruct j as [|j], j' as [|j'].
+      + split; [reflexivity|].
+        destruct Hj as (ms & ok & l & m & Hh & Ho & Hm & Hl & Hn).
+        destruct Hj' as (ms' & ok' & l' & m' & Hh' & Ho' & Hm' & Hl' & Hn').
+        cbn [nth_error SigModel.outcomes_tx] in Hh, Hh', Ho, Ho'. inversion Hh; subst x. inversion Hh'; subst ms' ok'.
+        assert (Hacc : snd (step_tx st (ms, ok)) = Some l) by congruence.
+        assert (l' = l) by congruence. subst l'.
+        pose proof (step_tx_accept _ _ _ _ Hacc) as (_ & _ & _ & Hb).
+        destruct (bump_all_spec _ _ _ Hb) as (_ & _ & Hi).
+        apply (Hi k k' a n); apply nth_error_combine; (split; [assumption|]); rewrite nth_error_map.
+        * rewrite Hm. cbn [option_map]. congruence.
+        * rewrite Hm'. cbn [option_map]. congruence.
+      + exfalso. exact (no_exec_below r _ j' k' a n (Head _ Hj) (Tail _ _ Hj')).
+      + exfalso. exact (no_exec_below r _ j k a n (Head _ Hj') (Tail _ _ Hj)).
+      + destruct (IH _ j k j' k' a n (Tail _ _ Hj) (Tail _ _ Hj')) as [-> ->]. auto.
+  Qed.
+
+  (** a transaction that contains -- anywhere among its messages -- a message
+      for an (account, nonce) that is below the account's sequence is rejected
+      as a whole, and the state stays as it was *)
+  Lemma stale_later h : forall st j' ms ok m a n,
+    (n < st a)%N -> nth_error h j' = Some (ms, ok) -> In m ms ->
+    auth (final_tx st (firstn j' h)) m = Some a -> nonce_of m = n ->
+    nth_error (outcomes_tx st h) j' = Some None /\
+    final_tx st (firstn (S j') h) = final_tx st (firstn j' h).
+  Proof.
+    induction h as [|x r IH]; intros st j' ms ok m a n Hlt Hh Hin Hau Hn.
+    - destruct j'; discriminate.
+    - destruct j' as [|j']; cbn [nth_error firstn SigModel.outcomes_tx SigModel.final_tx] in Hh, Hau |- *.
+      + inversion Hh; subst x. subst n. rewrite (tx_stale_rejected st ms ok m a Hin Hau Hlt). auto.
+      + apply (IH (fst (step_tx st x)) j' ms ok m a n); try assumption.
+        pose proof (step_tx_mono st x a). lia.
+  Qed.
+
+  (** replay: after message (a, n) was executed, every later transaction that
+      contains a message authenticated as [a] with nonce [n] is rejected as a
+      whole and has no effect *)
+  Theorem tx_replay_rejected h : forall st j k a n j' ms ok m,
+    executed_at st h j k a n -> (j < j')%nat -> nth_error h j' = Some (ms, ok) -> In m ms ->
+    auth (final_tx st (firstn j' h)) m = Some a -> nonce_of m = n ->
+    nth_error (outcomes_tx st h) j' = Some None /\
+    final_tx st (firstn (S j') h) = final_tx st (firstn j' h).
+  Proof.
+    induction h as [|x r IH]; intros st j k a n j' ms ok m Hex Hlt Hh Hin Hau Hn.
+    - destruct j'; discriminate.
+    - destruct j' as [|j']; [lia|]. cbn [nth_error firstn SigModel.outcomes_tx SigModel.final_tx] in Hh, Hau |- *.
+      destruct j as [|j].
+      + apply (stale_later r (fst (step_tx st x)) j' ms ok m a n); try assumption.
+        destruct Hex as (ms0 & ok0 & l & m0 & Hh0 & Ho & Hm & Hl & Hn0). cbn in Hh0, Ho. inversion Hh0; subst x.
+        inversion Ho as [Ho']. destruct (step_tx_message _ _ _ _ _ _ _ Ho' Hm Hl) as (_ & _ & Hr). lia.
+      + apply (IH (fst (step_tx st x)) j k a n j' ms ok m); [|lia|assumption..].
+        destruct Hex as (ms0 & ok0 & l & m0 & Hh0 & Ho & Hm & Hl & Hn0). exists ms0, ok0, l, m0. auto.
+  Qed.
 End Machine.
 
 (** * the Ethereum route *)
@@ -136,6 +479,90 @@ Section EthRoute.
   Proof.
     intros Ha Hp. unfold step_eth, SigModel.step, auth_eth. rewrite Ha, Hp. reflexivity.
   Qed.
+
+  (** ** several MsgEthereumTx in one Cosmos transaction *)
+  Notation step_tx := (step_eth_tx hash recover cfg).
+  Notation executed := (executed_eth hash recover cfg).
+  Notation occ := (count_occ (list_eq_dec N.eq_dec)).
+
+  (** every (account, nonce) is executed at most once -- over all histories of
+      multi-message transactions, and within one transaction *)
+  Theorem eth_tx_each_nonce_once h st j k j' k' a n :
+    executed st h j k a n -> executed st h j' k' a n -> j = j' /\ k = k'.
+  Proof. apply tx_each_nonce_once. Qed.
+
+  (** all or nothing *)
+  Theorem eth_tx_reject_no_effect st x : snd (step_tx st x) = None -> fst (step_tx st x) = st.
+  Proof. apply step_tx_reject. Qed.
+
+  (** what acceptance means for message [k] of the transaction, and for the state *)
+  Theorem eth_tx_accept_spec st ms ok l :
+    snd (step_tx st (ms, ok)) = Some l ->
+    ok = true /\ length l = length ms /\
+    (forall k m a, nth_error ms k = Some m -> nth_error l k = Some a ->
+       auth st m = Some a /\ tx_nonce m = (st a + N.of_nat (occ (firstn k l) a))%N) /\
+    (forall b, fst (step_tx st (ms, ok)) b = (st b + N.of_nat (occ l b))%N).
+  Proof.
+    intros H. pose proof (step_tx_accept _ _ _ _ _ _ _ H) as (_ & Hok & Hau & _).
+    destruct (auth_all_nth _ _ _ _ Hau) as [Hlen _].
+    split; [exact Hok|]. split; [exact Hlen|]. split.
+    - intros k m a Hm Hl. destruct (step_tx_message _ _ _ _ _ _ _ _ _ _ H Hm Hl) as (H1 & H2 & _). auto.
+    - exact (step_tx_state _ _ _ _ _ _ _ H).
+  Qed.
+
+  Theorem eth_tx_replay_rejected h st j k a n j' ms ok m :
+    executed st h j k a n -> (j < j')%nat -> nth_error h j' = Some (ms, ok) -> In m ms ->
+    auth st m = Some a -> tx_nonce m = n ->
+    nth_error (outcomes_eth_tx hash recover cfg st h) j' = Some None /\
+    final_eth_tx hash recover cfg st (firstn (S j') h) = final_eth_tx hash recover cfg st (firstn j' h).
+  Proof.
+    intros Hex Hlt Hh Hin Hau Hn.
+    exact (tx_replay_rejected _ _ _ h st j k a n j' ms ok m Hex Hlt Hh Hin Hau Hn).
+  Qed.
+
+  Theorem eth_tx_duplicate_rejected st ms ok k k' m m' a :
+    k <> k' -> nth_error ms k = Some m -> nth_error ms k' = Some m' ->
+    auth st m = Some a -> auth st m' = Some a -> tx_nonce m = tx_nonce m' ->
+    step_tx st (ms, ok) = (st, None).
+  Proof. apply tx_duplicate_rejected. Qed.
+
+  Theorem eth_tx_out_of_order_rejected st ms ok l k m a :
+    auth_all auth st ms = Some l -> nth_error ms k = Some m -> nth_error l k = Some a ->
+    tx_nonce m <> (st a + N.of_nat (occ (firstn k l) a))%N ->
+    step_tx st (ms, ok) = (st, None).
+  Proof. apply tx_out_of_order_rejected. Qed.
+
+  Theorem eth_tx_stale_rejected st ms ok m a :
+    In m ms -> auth st m = Some a -> (tx_nonce m < st a)%N -> step_tx st (ms, ok) = (st, None).
+  Proof. apply tx_stale_rejected. Qed.
+
+  Theorem eth_tx_in_order_accepted st ms l :
+    ms <> [] -> auth_all auth st ms = Some l ->
+    (forall k m a, nth_error ms k = Some m -> nth_error l k = Some a ->
+                   tx_nonce m = (st a + N.of_nat (occ (firstn k l) a))%N) ->
+    snd (step_tx st (ms, true)) = Some l.
+  Proof. apply tx_in_order_accepted. Qed.
+
+  (** one foreign-chain or unprotected message poisons the whole transaction *)
+  Theorem eth_tx_foreign_chain_rejected st ms ok tx :
+    In tx ms -> protected tx = true -> chain_id tx <> c_eip155 cfg -> step_tx st (ms, ok) = (st, None).
+  Proof.
+    intros Hin Hp Hc. apply (tx_unauthenticated_rejected _ _ _ st ms ok tx Hin).
+    unfold auth_eth. rewrite (sender_foreign _ _ Hp Hc).
+    destruct (negb (c_allow_unprotected cfg) && negb (protected tx)); reflexivity.
+  Qed.
+
+  Theorem eth_tx_unprotected_rejected st ms ok tx :
+    In tx ms -> c_allow_unprotected cfg = false -> protected tx = false -> step_tx st (ms, ok) = (st, None).
+  Proof.
+    intros Hin Ha Hp. apply (tx_unauthenticated_rejected _ _ _ st ms ok tx Hin).
+    unfold auth_eth. rewrite Ha, Hp. reflexivity.
+  Qed.
+
+  (** the one-message transaction is the old machine *)
+  Theorem eth_tx_singleton st tx ok :
+    step_tx st ([tx], ok) = (fst (step st (tx, ok)), option_map (fun a => [a]) (snd (step st (tx, ok)))).
+  Proof. apply step_tx_singleton. Qed.
 
   (** the signature that authenticates: the recovery call that succeeded *)
   Lemma sender_some cid tx a : sender hash recover cid tx = Some a ->
@@ -458,6 +885,16 @@ Theorem sub_each_nonce_once nd (h : list (sub * bool)) st i j a n :
   accepted_at N.eq_dec (auth_sub nd) sub_nonce st h j a n -> i = j.
 Proof. apply each_nonce_once. Qed.
 
+Theorem sub_tx_each_nonce_once nd (h : list (list sub * bool)) st j k j' k' a n :
+  executed_at N.eq_dec (auth_sub nd) sub_nonce st h j k a n ->
+  executed_at N.eq_dec (auth_sub nd) sub_nonce st h j' k' a n -> j = j' /\ k = k'.
+Proof. apply tx_each_nonce_once. Qed.
+
+(** on one-unit transactions [step_sub_tx] is [step_sub] *)
+Theorem sub_tx_singleton nd st s ok :
+  step_sub_tx nd st ([s], ok) = (fst (step_sub nd st (s, ok)), option_map (fun a => [a]) (snd (step_sub nd st (s, ok)))).
+Proof. apply step_tx_singleton. Qed.
+
 (** * non-vacuity *)
 Section Examples.
   (** a toy signature scheme satisfying the single hypothesis: the "signature"
@@ -507,6 +944,51 @@ Section Examples.
   Proof.
     split; [lia|]. split; [apply wfb_wf; vm_compute; reflexivity|]. cbn. repeat split; try lia; exact I.
   Qed.
+
+  (** ** several messages in one transaction: key 42 (sequence 5) and key 43
+      (sequence 0) *)
+  Definition ex_tx (k : Z) (nonce value : N) : eth_tx :=
+    sign_tx toy_hash toy_sign k 11235
+            (TxDynamicFee (mk_df 11235 nonce 1 100 21000 (Some (repeat 9%N 20)) (Z.of_N value) [] [] 0 0 0)).
+  Definition seq_of (st : bytes -> N) : N * N := (st (toy_addr 42), st (toy_addr 43)).
+  Notation A42 := (toy_addr 42).
+  Notation A43 := (toy_addr 43).
+
+  (** a valid two-message transaction (nonces 5, 6) is accepted, both messages
+      execute, the sequence ends at 7 *)
+  Example ex_batch_accepted :
+    outcomes_eth_tx toy_hash toy_recover ex_cfg ex_state [([ex_tx 42 5 1; ex_tx 42 6 2], true)] = [Some [A42; A42]] /\
+    seq_of (final_eth_tx toy_hash toy_recover ex_cfg ex_state [([ex_tx 42 5 1; ex_tx 42 6 2], true)]) = (7%N, 0%N).
+  Proof. vm_compute. split; reflexivity. Qed.
+
+  (** two senders interleaved *)
+  Example ex_interleaved_accepted :
+    outcomes_eth_tx toy_hash toy_recover ex_cfg ex_state
+      [([ex_tx 42 5 1; ex_tx 43 0 1; ex_tx 42 6 2; ex_tx 43 1 2], true)] = [Some [A42; A43; A42; A43]] /\
+    seq_of (final_eth_tx toy_hash toy_recover ex_cfg ex_state
+      [([ex_tx 42 5 1; ex_tx 43 0 1; ex_tx 42 6 2; ex_tx 43 1 2], true)]) = (7%N, 2%N).
+  Proof. vm_compute. split; reflexivity. Qed.
+
+  (** the same signed transaction twice; two different transactions with the
+      same nonce; a gap; the right nonces in the wrong order; a duplicate behind
+      another sender's message: each is rejected as a whole, nothing moves *)
+  Example ex_bad_batches_rejected :
+    let bad := [ [ex_tx 42 5 1; ex_tx 42 5 1]; [ex_tx 42 5 1; ex_tx 42 5 9]; [ex_tx 42 5 1; ex_tx 42 7 1];
+                 [ex_tx 42 6 1; ex_tx 42 5 1]; [ex_tx 42 5 1; ex_tx 43 0 1; ex_tx 42 5 1];
+                 [ex_tx 43 0 1; ex_tx 42 5 1; ex_tx 42 6 1; ex_tx 42 6 1] ] in
+    map (fun ms => (snd (step_eth_tx toy_hash toy_recover ex_cfg ex_state (ms, true)),
+                    seq_of (fst (step_eth_tx toy_hash toy_recover ex_cfg ex_state (ms, true))))) bad
+    = repeat (None, (5%N, 0%N)) 6.
+  Proof. vm_compute. reflexivity. Qed.
+
+  (** a history: a batch, then a transaction that replays one of its messages
+      beside a fresh one (rejected as a whole), then the fresh one alone *)
+  Example ex_history :
+    outcomes_eth_tx toy_hash toy_recover ex_cfg ex_state
+      [([ex_tx 42 5 1; ex_tx 42 6 2], true); ([ex_tx 42 7 3; ex_tx 42 6 2], true); ([ex_tx 42 6 2; ex_tx 42 7 3], true);
+       ([ex_tx 42 7 3], true); ([ex_tx 42 7 3], true)]
+    = [Some [A42; A42]; None; None; Some [A42]; None].
+  Proof. vm_compute. reflexivity. Qed.
 
   (** a pre-EIP-155 signature is refused while AllowUnprotectedTxs is false *)
   Definition ex_homestead : eth_tx := TxLegacy (mk_legacy 5 1 21000 None 0 [] 27 1 1).
